@@ -1,4 +1,222 @@
+import Hive.Proofs.WorkerPoolLog
 import Hive.Model.WorkerPoolSched
-/-! # C16 — WorkerPool conserves tasks and always shuts down (theorems under construction) -/
+/-!
+# C16 — WorkerPool conserves tasks and always shuts down
+
+Property theorems only.  Model: `Hive/Model/WorkerPool.lean` (runtime/workerpool/workerpool.go with the
+repaired `Start`, task.go; the parts of syncutils.Counter / syncutils.Stack the pool uses).  Every
+theorem quantifies over the worker count `p.W`, cancel-on-shutdown `p.cancel`, any number of client
+threads with arbitrary scripts of Submit / Shutdown / Start / ShutdownComplete.Wait / WaitIsZero calls,
+task bodies that submit further tasks to any depth, and every interleaving (`Reach`).
+-/
 namespace Hive.WP
+open Hive.Conc
+
+/-- Initial configurations: any number of client threads, each with an arbitrary script, plus the
+scheduler thread of the pool's own goroutines. -/
+def Initial (ts : List Thr) : Prop := ∀ t ∈ ts, t.fresh = true
+
+theorem lin_pend_up (s : St) : cnt fPend s + cnt fDn s + cnt fNone s ≤ cnt fUp s + cnt fNone s :=
+  countP_lin s.tasks fPend fDn fNone fUp fNone (by
+    intro a; cases a with | mk ph r k => cases ph <;> simp [fPend, fDn, fUp, fNone, Phase.pending, Phase.dnd, Phase.upd])
+
+theorem lin_up_pend (s : St) : cnt fUp s + cnt fNone s + cnt fNone s ≤ cnt fPend s + cnt fDn s :=
+  countP_lin s.tasks fUp fNone fNone fPend fDn (by
+    intro a; cases a with | mk ph r k => cases ph <;> simp [fPend, fDn, fUp, fNone, Phase.pending, Phase.dnd, Phase.upd])
+
+/-- **C16, conservation.**  In every reachable configuration
+* the event trace produced so far satisfies the trace predicate `traceOk` (each task decided at most
+  once, run at most once and never when rejected, the counter moving in unit steps and every decrease
+  accounted for by the end of a run or — cancel-on-shutdown, after a Shutdown call — by a counted
+  task that never ran; nothing runs between a shutdown completion and the next Start),
+* the pending counter equals the number of accepted tasks (counter increased) that have not finished
+  (`markDone` executed): `pending + finished = accepted`, and it is the value the trace shows,
+* without cancel-on-shutdown no task is ever cancelled. -/
+theorem C16_conservation (p : Params) (ts : List Thr) (h0 : Initial ts) (c : Cfg St Thr)
+    (hr : Reach (sys p) (St.init, ts) c) :
+    traceOk p.cancel c.1.log = true ∧
+    c.1.pending + cnt fDn c.1 = cnt fUp c.1 ∧
+    (∃ m, monRun p.cancel (some Mon.init) c.1.log = some m ∧ m.ctr = c.1.pending ∧
+        m.ups = cnt fUp c.1 ∧ m.dns = cnt fDn c.1) ∧
+    (p.cancel = false → cnt fCanc c.1 = 0) := by
+  have G := ginv_reach p ts h0 c hr
+  have L := logInv_reach p ts c hr
+  obtain ⟨m, hm, R⟩ := G.st.mon
+  unfold LogInv at L
+  rw [hm] at L
+  refine ⟨by simp [traceOk, ← L], ?_, ⟨m, L.symm, R.ctr, R.ups, R.dns⟩, G.st.nocancel⟩
+  have a := lin_pend_up c.1
+  have b := lin_up_pend c.1
+  have z := cnt_fNone c.1
+  have := G.st.cons
+  omega
+
+/-! ### nothing runs after a completed shutdown -/
+
+theorem monRun_append' (c : Bool) (m : Option Mon) (l1 l2 : List Ev) :
+    monRun c m (l1 ++ l2) = monRun c (monRun c m l1) l2 := by
+  induction l1 generalizing m with
+  | nil => rfl
+  | cons a as ih =>
+    cases m with
+    | none => simp [monRun, monRun_none]
+    | some x => simp [monRun, ih]
+
+def Ev.isWork : Ev → Bool
+  | .rs _ | .re _ | .dn _ => true
+  | _ => false
+
+theorem monStep_completed (c : Bool) (m m' : Mon) (e : Ev) (h : monStep c m e = some m') (hc : m.completed = true)
+    (hs : e ≠ .startcall) : e.isWork = false ∧ m'.completed = true := by
+  cases e <;> simp only [monStep] at h
+  case startcall => exact absurd rfl hs
+  case rs t => simp [hc] at h
+  case re t => simp [hc] at h
+  case dn n => simp [hc] at h
+  case complete => cases h; constructor; rfl; split <;> simp [hc]
+  all_goals
+    first
+    | (cases h; exact ⟨rfl, hc⟩)
+    | (split at h
+       · cases h; exact ⟨rfl, hc⟩
+       · cases h)
+
+theorem no_work_while_completed (c : Bool) (m : Mon) (l : List Ev) (hc : m.completed = true)
+    (hacc : (monRun c (some m) l).isSome = true) (hs : Ev.startcall ∉ l) : ∀ e ∈ l, e.isWork = false := by
+  induction l generalizing m with
+  | nil => intro e he; cases he
+  | cons a as ih =>
+    simp only [monRun] at hacc
+    cases hstep : monStep c m a with
+    | none => rw [hstep, monRun_none] at hacc; cases hacc
+    | some m' =>
+      rw [hstep] at hacc
+      have ha : a ≠ .startcall := fun x => hs (by simp [x])
+      obtain ⟨h1, h2⟩ := monStep_completed c m m' a hstep hc ha
+      intro e he
+      rcases List.mem_cons.mp he with he | he
+      · subst he; exact h1
+      · exact ih m' h2 hacc (fun x => hs (List.mem_cons_of_mem _ x)) e he
+
+/-- **C16, no task runs after shutdown completion.**  Whenever the trace of a reachable configuration
+contains a `complete` event (a `ShutdownComplete.Wait()` returned) at a moment when no `Start` call
+is in flight, then until the next `Start` call no worker function is entered or left and no task is
+marked done. -/
+theorem C16_no_run_after_shutdown_complete (p : Params) (ts : List Thr) (h0 : Initial ts) (c : Cfg St Thr)
+    (hr : Reach (sys p) (St.init, ts) c) (l1 l2 : List Ev) (hlog : c.1.log = l1 ++ Ev.complete :: l2)
+    (hopen : ∀ m, monRun p.cancel (some Mon.init) l1 = some m → m.openStarts = 0)
+    (hno : Ev.startcall ∉ l2) : ∀ e ∈ l2, e.isWork = false := by
+  have hok := (C16_conservation p ts h0 c hr).1
+  unfold traceOk at hok
+  rw [hlog, monRun_append'] at hok
+  cases h1 : monRun p.cancel (some Mon.init) l1 with
+  | none => rw [h1, monRun_none] at hok; cases hok
+  | some m =>
+    rw [h1] at hok
+    have ho := hopen m h1
+    simp only [monRun, monStep, ho, if_true] at hok
+    exact no_work_while_completed p.cancel _ l2 rfl hok hno
+
+
+/-! ### termination: the full statement, and the schedules on which the code violates it -/
+
+/-- **C16, termination and quiescence, full statement** (NOT satisfied by the code, see the witnesses
+below; the proved part is `C16_shutdown_terminates_partial`).  In every reachable configuration in
+which nobody can move any more: the pending counter is zero (so every accepted task has been run or
+cancelled), every client call has returned — except `ShutdownComplete.Wait()` calls on a pool that is
+running again — and a pool that is not running has no live goroutine (`ShutdownComplete` is at zero). -/
+def C16_statement : Prop :=
+  ∀ (p : Params) (ts : List Thr) (c : Cfg St Thr), 0 < p.W → p.oldStart = false → Initial ts →
+    Reach (sys p) (St.init, ts) c → Stuck (sys p) c →
+      c.1.pending = 0 ∧
+      (∀ t ∈ c.2, t.finished = true ∨ (t.atWaitComplete = true ∧ c.1.running = true)) ∧
+      (c.1.running = false → wg c.1 = 0)
+
+theorem stuckB_sound (p : Params) (c : Cfg St Thr) (h : stuckB p c = true) : Stuck (sys p) c := by
+  intro t ht
+  have := List.all_eq_true.mp h t ht
+  simpa using this
+
+def clientsDone (c : Cfg St Thr) : Bool := c.2.all Thr.finished
+
+def scWindowLostSched : List (Nat × Nat) :=
+  [(0, 0), (0, 0), (0, 0), (0, 0), (0, 0), (0, 0), (3, 0), (3, 0), (3, 0), (3, 0), (1, 0), (1, 0), (2, 0), (2, 0), (2, 0), (2, 0), (2, 0), (2, 0), (3, 0), (3, 0), (3, 0), (3, 0), (3, 0), (3, 0), (3, 0), (3, 0), (2, 0), (2, 0), (1, 0), (1, 0), (1, 0)]
+
+def scWindowHangSched : List (Nat × Nat) :=
+  [(0, 0), (0, 0), (0, 0), (0, 0), (0, 0), (0, 0), (1, 0), (1, 0), (1, 0), (1, 0), (1, 0), (4, 0), (4, 0), (4, 0), (4, 1), (4, 1), (2, 0), (2, 0), (4, 0), (4, 0), (4, 0), (4, 0), (4, 0), (3, 0), (3, 0), (3, 0), (3, 0), (3, 0), (3, 0), (4, 0), (4, 0), (4, 0), (4, 0), (2, 0), (2, 0), (2, 0), (4, 0), (4, 0), (3, 0)]
+
+def scGapLostSched : List (Nat × Nat) :=
+  [(0, 0), (0, 0), (0, 0), (0, 0), (0, 0), (0, 0), (2, 0), (2, 0), (2, 0), (1, 0), (1, 0), (1, 0), (1, 0), (1, 0), (1, 0), (2, 0), (2, 0), (1, 0)]
+
+def scRestartSched : List (Nat × Nat) :=
+  [(0, 0), (0, 0), (0, 0), (0, 0), (0, 0), (0, 0), (1, 0), (1, 0), (1, 0), (1, 0), (0, 0), (0, 0), (0, 0), (0, 0), (0, 0), (0, 0), (0, 0), (0, 0), (1, 0), (1, 0), (1, 0), (1, 0), (1, 0), (1, 0), (1, 0), (1, 0), (0, 0), (0, 0), (0, 0), (0, 0), (0, 0), (0, 0), (0, 0), (0, 0), (0, 0), (1, 0), (1, 0), (1, 0), (1, 1), (1, 1), (1, 1), (1, 1), (0, 0), (0, 0), (1, 0), (1, 0), (1, 0), (1, 0), (0, 0), (0, 0), (0, 0), (0, 0), (0, 0), (0, 0), (1, 0), (1, 0), (1, 0), (1, 0), (1, 0), (1, 0), (1, 0), (1, 0), (0, 0), (0, 0)]
+
+def scOldStartSched : List (Nat × Nat) :=
+  [(0, 0), (0, 0), (0, 0), (0, 0), (0, 0), (1, 0), (1, 0), (1, 0), (1, 0), (0, 0), (0, 0), (0, 0), (0, 0), (0, 0), (0, 0), (0, 0), (0, 0), (0, 0), (1, 0), (1, 0)]
+
+theorem C16_sched_window_lost_example : scWindowLost.sched = scWindowLostSched := by decide
+theorem C16_sched_window_hang_example : scWindowHang.sched = scWindowHangSched := by decide
+theorem C16_sched_gap_lost_example : scGapLost.sched = scGapLostSched := by decide
+theorem C16_sched_restart_example : scRestart.sched = scRestartSched := by decide
+theorem C16_sched_old_start_example : scOldStart.sched = scOldStartSched := by decide
+
+/-- **Witness (Submit window, lost task).**  One worker; a `Submit` passes the running check, the pool
+is shut down completely, then the `Submit` increases the counter and pushes: nobody can move, every
+call has returned, `ShutdownComplete` is at zero — and the pending counter is 1 for ever with the
+task still queued.  Replayed on the real code through the `verif` hook in `Submit`. -/
+theorem C16_submit_window_lost_witness :
+    let c := runSched (sys scWindowLost.p) scWindowLost.init scWindowLostSched
+    stuckB scWindowLost.p c = true ∧ clientsDone c = true ∧ c.1.running = false ∧ wg c.1 = 0 ∧
+      c.1.pending = 1 ∧ (queuedIds c.1).length = 1 ∧ c.1.raced = true ∧ c.1.lost = false := by
+  decide
+
+/-- **Witness (Submit window, shutdown never completes).**  As above, but a running task keeps the
+dispatcher in `WaitIsZero` when the late push arrives: the dispatcher waits for a counter that cannot
+reach zero, the worker waits for the channel to be closed, `ShutdownComplete.Wait()` never returns. -/
+theorem C16_submit_window_hang_witness :
+    let c := runSched (sys scWindowHang.p) scWindowHang.init scWindowHangSched
+    stuckB scWindowHang.p c = true ∧ c.1.running = false ∧ wg c.1 = 1 ∧ c.1.pending = 1 ∧
+      c.1.disp = .waitZero ∧ (c.2.any Thr.atWaitComplete) = true ∧ c.1.raced = true ∧ c.1.lost = false := by
+  decide
+
+/-- **Witness (lost wake-up).**  The dispatcher evaluated `IsRunning() = true` inside `PopOrWait` and
+has not yet started to wait when `Shutdown` broadcasts `elementAdded` (without the stack mutex): the
+broadcast is lost, the dispatcher sleeps for ever, `ShutdownComplete.Wait()` never returns.  No
+`Submit` is involved. -/
+theorem C16_signal_lost_witness :
+    let c := runSched (sys scGapLost.p) scGapLost.init scGapLostSched
+    stuckB scGapLost.p c = true ∧ c.1.running = false ∧ wg c.1 = 1 ∧ c.1.pending = 0 ∧
+      c.1.disp = .waiting ∧ c.1.dwait = true ∧ (c.2.any Thr.atWaitComplete) = true ∧
+      c.1.raced = false ∧ c.1.lost = true := by
+  decide
+
+/-- The code does not satisfy the full statement. -/
+theorem C16_statement_fails_witness : ¬ C16_statement := by
+  intro h
+  have hw := C16_submit_window_lost_witness
+  simp only at hw
+  have := h scWindowLost.p (mkClients scWindowLost.scripts)
+    (runSched (sys scWindowLost.p) scWindowLost.init scWindowLostSched) (by decide) rfl (by intro t ht; revert t; decide)
+    (runSched_reach _ _ _) (stuckB_sound _ _ hw.1)
+  rw [hw.2.2.2.2.1] at this
+  exact absurd this.1 (by decide)
+
+/-- **Regression witness for the repaired defect**: with `Start` as it was (waiting for
+`ShutdownComplete` while holding the pool lock) `Start(); Shutdown(); Start()` by a single caller
+deadlocks — the dispatcher cannot read `isRunning`. -/
+theorem C16_old_start_witness :
+    let c := runSched (sys scOldStart.p) scOldStart.init scOldStartSched
+    stuckB scOldStart.p c = true ∧ clientsDone c = false ∧ c.1.writer = true ∧ c.1.disp = .cond ∧ wg c.1 = 1 ∧
+      c.1.raced = false ∧ c.1.lost = false := by
+  decide
+
+/-- The same life cycle with the repaired `Start`, followed by a task and a second shutdown, runs to
+a clean end (non-vacuity of the model: tasks are accepted, dispatched, run, and the pool restarts). -/
+theorem C16_restart_example :
+    let c := runSched (sys scRestart.p) scRestart.init scRestartSched
+    stuckB scRestart.p c = true ∧ clientsDone c = true ∧ c.1.pending = 0 ∧ wg c.1 = 0 ∧ c.1.starts = 2 ∧
+      countPhase c.1 (· == .done) = 1 ∧ c.1.raced = false ∧ c.1.lost = false ∧ c.1.broken = false ∧
+      traceOk scRestart.p.cancel c.1.log = true := by
+  decide
+
 end Hive.WP
